@@ -43,6 +43,10 @@ type Round struct {
 	// DownCalls (close kind restart-down): calls issued while the server is down (they may
 	// fail - the server is not reachable then - but must not poison the calls after the restart)
 	DownCalls int `json:"down_calls,omitempty"`
+	// OneWay: one-way requests sent on the live connection before the close (the server reads
+	// them and, as a Tars server does, never answers them: the client keeps counting them as
+	// in flight on that connection)
+	OneWay int `json:"one_way,omitempty"`
 }
 
 type Case struct {
@@ -91,6 +95,9 @@ func draw(rt *rapid.T) Case {
 		}
 		if rd.Close == "restart-down" {
 			rd.DownCalls = rapid.IntRange(1, 8).Draw(rt, "downCalls")
+		}
+		if rapid.IntRange(0, 2).Draw(rt, "oneWayBefore") == 0 {
+			rd.OneWay = rapid.IntRange(1, 3).Draw(rt, "oneWay")
 		}
 		c.Rounds = append(c.Rounds, rd)
 	}
@@ -173,6 +180,9 @@ func runOnce(c Case) outcome {
 		if _, gone := notified.Load(r.Conn); gone {
 			return
 		}
+		if r.OneWay {
+			return
+		}
 		s.Reply(r.Conn, r.Version, r.ID, 0, "", "own", 0)
 		if len(r.Buffer) >= 4 && binary.BigEndian.Uint32(r.Buffer) == atomic.LoadUint32(&e.closeTok) {
 			s.CloseConn(r.Conn)
@@ -244,6 +254,31 @@ func runOnce(c Case) outcome {
 				err, took, tok, start := e.call()
 				if o := checkCall(ri, "warm-up call", err, took, tok, start); o != nil {
 					return *o
+				}
+			}
+		}
+		// one-way traffic on the live connection: the requests must have arrived before the close
+		for k := 0; k < rd.OneWay; k++ {
+			tok := atomic.AddUint32(&e.token, 1)
+			buf := make([]byte, 4)
+			binary.BigEndian.PutUint32(buf, tok)
+			ctx, cancel := context.WithTimeout(context.Background(), callTimeoutMs*time.Millisecond)
+			err := e.sp.TarsInvoke(ctx, 1 /* basef.TARSONEWAY */, "note", buf, nil, nil, &requestf.ResponsePacket{})
+			cancel()
+			if err != nil {
+				return outcome{f: stat.Failf("call-failed-after-close", "round %d: one-way request %d on the live connection (after a successful warm-up call) failed: %v", ri, k, err)}
+			}
+			dl := time.Now().Add(2 * time.Second)
+			for arrived := false; !arrived; {
+				reqs, _, _ := srv.Snapshot()
+				for j := len(reqs) - 1; j >= 0 && !arrived; j-- {
+					arrived = len(reqs[j].Buffer) >= 4 && binary.BigEndian.Uint32(reqs[j].Buffer) == tok
+				}
+				if !arrived {
+					if time.Now().After(dl) {
+						return outcome{soft: true, f: stat.Failf("slow-after-close", "round %d: one-way request %d had not reached the server after 2 s", ri, k)}
+					}
+					time.Sleep(200 * time.Microsecond)
 				}
 			}
 		}
@@ -443,6 +478,11 @@ var pinnedCases = map[string]Case{
 		{Close: "push-data", GapMs: 100, NCalls: 1}, {Close: "push-data", GapMs: 500, NCalls: 2}}},
 	"close-in-the-middle-of-a-packet": {Rounds: []Round{
 		{Close: "partial-frame", GapMs: 10, NCalls: 2}, {Close: "partial-frame", GapMs: 301, NCalls: 1, Settle: true}}},
+	// two graceful restarts in a row with unanswered one-way requests on the first connection:
+	// the client is still draining its first connection when the second notification arrives
+	"two-notifications-with-one-way-traffic": {Rounds: []Round{
+		{Close: "push-linger", OneWay: 2, GapMs: 300, NCalls: 1}, {Close: "push-linger", GapMs: 10, NCalls: 2},
+		{Close: "push", OneWay: 1, GapMs: 100, NCalls: 1}, {Close: "push-linger", GapMs: 500, NCalls: 1, Settle: true}}},
 	"restart-with-calls-during-downtime": {SmallQueue: true, Rounds: []Round{
 		{Close: "restart-down", DownCalls: 6, GapMs: 1, NCalls: 2}}},
 }
@@ -466,6 +506,9 @@ func TestC11(t *testing.T) {
 			}
 			if r.Settle {
 				cls = append(cls, "settle")
+			}
+			if r.OneWay > 0 {
+				cls = append(cls, "one-way-requests-before-the-close")
 			}
 		}
 		if c.SSL {
